@@ -450,6 +450,18 @@ def check(rep):
     rep.sections["interpreter_selftest"] = {"strings_agreeing_with_cpython": n_self}
     agg = common.explore_split("vf.harness.c12", {"K": K}, depth=2 if K == 2 else 3)
     rep.merge_explore("tokenize", agg)
+    if K == 2:
+        # slice of the next size: three candidates over the kinds of the nominative-reporter branch (a kept
+        # nominative citation, an ordinary citation, a section mark) - all nine kinds at K = 3 are 346 k paths
+        SL = ["cite_nominative", "cite_us", "section"]
+        rep.bounds.append(f"plus the slice K = 3 over the kinds {SL}")
+        aggs = common.explore_split("vf.harness.c12", {"K": 3, "kinds": SL}, depth=3)
+        rep.merge_explore("tokenize_3_slice", aggs)
+        for k_, v_ in aggs["verdicts"].items():
+            agg["verdicts"][k_] = agg["verdicts"].get(k_, 0) + v_
+        agg["findings"] = agg["findings"] + aggs["findings"]
+        agg["paths"] += aggs["paths"]
+        agg["errors"] = agg["errors"] + aggs["errors"]
     clauses = ["concat_equals_text", "specials_increasing_disjoint", "special_is_input_token", "offsets_index_own_text", "index_list_exact"]
     # vacuity: assertion reached on > 0 paths for every clause
     for c in clauses:
